@@ -8,6 +8,7 @@ import TnVerif.Model.Assign
 import TnVerif.Model.Tools
 import TnVerif.Model.Deriv
 import TnVerif.Model.Automata
+import TnVerif.Model.Anova
 /-
   Line-protocol driver (DESIGN §2.6).  One request per line on stdin, one answer per line on
   stdout.  Tokens are separated by blanks; numbers are integers or `p/q`.
@@ -267,6 +268,16 @@ def run (cmd : String) : PM String := do
   | "weight" => do
       let ns ← pNat; let n ← pNat
       return "ok " ++ showTensor (weightT (R := Q) ns n)
+  | "anova" => do
+      let n ← pNat
+      let mut ws : Array (Nat → Q) := #[]
+      for _ in [0:n] do
+        let k ← pNat
+        let a ← pArr k
+        ws := ws.push (fun i => a.getD i 0)
+      let t ← pTensor
+      return "ok " ++ showTensor (t.anova ws.toList)
+  | "undo_anova" => do let t ← pTensor; return "ok " ++ showTensor t.undoAnova
   | _ => throw s!"unknown command {cmd}"
 
 def handle (line : String) : String :=
